@@ -817,6 +817,7 @@ impl GRLParser {
 
     fn parse_not_condition(&self, clause: &str) -> Result<ConditionGroup> {
         let inner_clause = clause
+            .trim_start() // the caller dispatches on trim_start(), e.g. for "( !(A) )"
             .strip_prefix('!')
             .ok_or_else(|| RuleEngineError::ParseError {
                 message: format!("Expected '!' prefix in NOT condition: {}", clause),
